@@ -14,6 +14,8 @@ Notation step := (step chunk maxlen file flen).
 Notation run := (run chunk maxlen file flen).
 Notation spec := (spec maxlen file flen).
 Notation memchr := (memchr file).
+Notation run_f := (run_f chunk maxlen file flen).
+Notation reaches_source := (reaches_source chunk maxlen flen).
 
 (* ---- memchr ---- *)
 
@@ -186,6 +188,17 @@ Proof.
   induction ops as [|o r IH]; intros st HI; [reflexivity|].
   cbn [ChunkCache.run map]. destruct (step_spec st o HI) as [HI' Ho].
   destruct (step st o) as [st' out]. cbn [fst snd] in *. rewrite Ho, (IH st' HI'). reflexivity.
+Qed.
+
+(* with a source that may fail single reads: a call that met a failure answers Err and leaves no trace; every other call answers as specified *)
+Theorem run_f_spec evs : forall st fail, Inv st ->
+  Forall2 (fun ev r => (snd r = true -> fst r = Err) /\ (snd r = false -> fst r = spec (snd ev))) evs (run_f st fail evs).
+Proof.
+  induction evs as [|[x o] r IH]; intros st fail HI; [constructor|].
+  cbn [ChunkCache.run_f]. unfold step_f. destruct ((fail || x) && reaches_source st o) eqn:E.
+  - constructor; [cbn; split; [reflexivity|discriminate] | apply IH; exact HI].
+  - destruct (step_spec st o HI) as [HI' Ho]. destruct (step st o) as [st' out]. cbn [fst snd] in *.
+    constructor; [cbn; split; [discriminate|intros _; exact Ho] | apply IH; exact HI'].
 Qed.
 
 End Proofs.
